@@ -260,6 +260,7 @@ func cliPart(r *mon.Run) {
 	commentPart(r, e)
 	xlPart(r, e)
 	sshSyntaxPart(r, e)
+	envPart(r, e)
 	if r.Counter("cli_runs") < 300 {
 		r.Inconclusive("CLI part ran only %d processes", r.Counter("cli_runs"))
 	}
